@@ -17,7 +17,7 @@ Results: `ok <flattened list>`; complex values as interleaved re,im.
 import Nitime.Model.CohBase
 import Nitime.Model.C04
 import Nitime.Model.C08Hist
-import Nitime.Lemmas.C08Retarget
+import Nitime.Model.C08Retarget
 
 namespace Nitime.C08
 open Nitime.Coh Nitime.Coh.CScalar
